@@ -123,12 +123,15 @@ Section Bytes.
     intros Hr Hh Hc Hw Hp. rewrite (copy_data_payload _ _ _ _ _ _ _ _ Hc Hp) in *. clear Hc Hp data.
     pose proof (copy_stream_exempt g gt tr d n d3 h Hr Hh) as Ht.
     unfold write_data, writer_encrypts in Hw. unfold payload, reader_decrypts.
-    unfold cipher_active in *. destruct tk as [k|]; cbn [is_some andb] in *.
-    - destruct (negb (mem t tplain)).
-      + rewrite Ht. rewrite (probe_agrees _ _ _ Ht) in Hw. injection Hw as <-.
-        destruct h; cbn [negb crypt_with]; [reflexivity|]. now rewrite dec_enc.
-      + injection Hw as <-. reflexivity.
-    - injection Hw as <-. reflexivity.
+    rewrite (probe_agrees _ _ _ Ht) in Hw.
+    assert (Hb : exists b, disk' = crypt_with key enc tk t b p /\ b = (if h then false else cipher_active tk tplain t)).
+    { destruct h.
+      - destruct (declared_kind gt d3) as [[|]|c]; try discriminate. injection Hw as <-. eauto.
+      - injection Hw as <-. eauto. }
+    destruct Hb as [b [-> ->]]. rewrite Ht.
+    destruct (cipher_active tk tplain t); [|destruct h; now rewrite !crypt_inactive].
+    destruct h; cbn [negb]; [now rewrite !crypt_inactive|].
+    destruct tk as [k|]; cbn [crypt_with]; [now rewrite dec_enc|reflexivity].
   Qed.
 
   (* the remaining filters: a function of the (inlined) /Filter and /DecodeParms
